@@ -238,14 +238,14 @@ PROPS["C08"] = {
 
 # ----------------------------------------------------------------------------- C03
 def _pats(n, tier, rich):
-    """zero patterns as base-3 numbers over n positions: 0 symbolic non-zero, 1 zero/absent, 2 stored zero"""
+    """zero patterns as base-4 numbers over n positions: 0 symbolic non-zero, 1 zero/absent, 2 stored zero, 3 zero value with derivative"""
     def enc(ds):
         v = 0
         for d in reversed(ds):
-            v = v * 3 + d
+            v = v * 4 + d
         return v
     if n == 3:
-        base = [[0, 0, 0], [1, 0, 0], [0, 0, 1], [0, 1, 0], [1, 1, 1], [2, 0, 1], [1, 0, 1]]
+        base = [[0, 0, 0], [1, 0, 0], [0, 0, 1], [0, 1, 0], [1, 1, 1], [2, 0, 1], [1, 0, 1], [3, 0, 1]]
         if tier != "quick" and rich:
             base += [[0, 2, 0], [2, 2, 2], [1, 1, 0], [0, 1, 1], [2, 1, 0]]
     else:
@@ -263,7 +263,7 @@ def c03_jobs(tier):
         kinds = (dk, sk)
         lean = quick and fi > 0  # Real64 in quick: the operations whose derivative handling differs
         for op in range(14):
-            if lean and op not in (0, 2, 3, 6, 8, 10):
+            if lean and op not in (0, 2, 3, 6, 8, 10, 13):
                 continue
             for rk in kinds:
                 for ak in kinds:
@@ -280,7 +280,7 @@ def c03_jobs(tier):
                             pbs = pbs[:2]
                             prs = [pats[0], pats[2]]
                         if lean:
-                            pas, pbs, prs = [pats[3], pats[5]], pbs[:1] if op != 2 else pbs[:2], [pats[0], pats[2]]
+                            pas, pbs, prs = [pats[3], pats[5], pats[7]], pbs[:1] if op != 2 else pbs[:2], [pats[0], pats[2]]
                         for pa in pas:
                             for pb in pbs:
                                 for pr in prs:
@@ -307,7 +307,7 @@ def c03_jobs(tier):
                         if op in (0, 1, 2, 3, 4, 5, 6, 11, 13):
                             pas, pbs, prs = mp[:5], ([mp[0], mp[4]] if op in (0, 1, 2) else [mp[0]]), [mp[0], mp[4]]
                         elif op == 7:
-                            pas, pbs, prs = mp[:5], [mp[0], mp[4]], [0, 1 + 27]
+                            pas, pbs, prs = mp[:5], [mp[0], mp[4]], [0, 1 + 64]
                         elif op == 8:
                             pas, pbs, prs = mp[:5], [vp3[0], vp3[4]], [vp2[0], vp2[1]]
                         elif op == 9:
